@@ -291,6 +291,12 @@ func judgeH1(r *hk.Run, cs *Case, res *Result) {
 		if !res.RespNil {
 			r.Fail(hk.Failure{Sig: "expected-error:" + sh, What: fmt.Sprintf("the call returned a response (status %d) where it must fail: %s", res.Status, expectWhy(cs)), Input: cs, Got: res, Want: "an error"})
 		}
+	case "error-not-timeout":
+		if !res.RespNil {
+			r.Fail(hk.Failure{Sig: "expected-error:" + sh, What: fmt.Sprintf("the call returned a response (status %d) for a message that is a protocol violation", res.Status), Input: cs, Got: res, Want: "the protocol error"})
+		} else if strings.Contains(res.Err, "Client.Timeout") || strings.Contains(res.Err, "context deadline exceeded") {
+			r.Fail(hk.Failure{Sig: "ended-by-timeout-only:" + sh, What: "the peer had sent a complete (illegal) message and kept the connection open: the call ended only through the caller's own timeout instead of the protocol error - without a timeout it would wait for ever", Input: cs, Got: res.Err, Want: "the protocol error, at once"})
+		}
 	case "response", "response-clean":
 		if res.RespNil {
 			r.Fail(hk.Failure{Sig: "expected-response:" + sh, What: "the call failed where a complete, well-formed response was served: " + expectWhy(cs), Input: cs, Got: res.Err, Want: "a response"})
